@@ -1,8 +1,199 @@
 import BddVerif.Drive.Util
-/-! Driver for C12 — stub, to be written. -/
-namespace B.Drive.C12
-open B B.Drive
+import BddVerif.Model.Serial
+import BddVerif.Core.ApplyCanon
+/-!
+Driver for C12 (serialisation round trips under any I/O chunking). For every observed case the model
+of `Model/Serial.lean` is run on the same inputs (`agree`), and the property's own clauses are evaluated on
+the OBSERVED output with encoders/decoders written here independently of the model (`fail`):
 
-def handle (key : String) (_ins _obs : List String) : Verdict := Verdict.bad ("key " ++ key)
+* a faultless script (no `e`, no `g0`) ⇒ outcome `ok` and the value read equals the original / the bytes
+  written equal the expected encoding (text: `showArr`; binary: 2+4+4 bytes little endian, 10 per node);
+* a consumed hard error ⇒ outcome `err`; never `panic`;
+* what reached the sink is always a prefix of the expected encoding.
+-/
+namespace B.Drive.C12
+open B B.Drive B.Serial
+
+/-! ### line-protocol helpers (shared with the C13 driver) -/
+
+def hexVal (c : Char) : Nat :=
+  if '0' ≤ c ∧ c ≤ '9' then c.toNat - 48 else if 'a' ≤ c ∧ c ≤ 'f' then c.toNat - 87 else 0
+
+def unhexL : List Char → List UInt8
+  | a :: b :: rest => (hexVal a * 16 + hexVal b).toUInt8 :: unhexL rest
+  | _ => []
+
+def unhex (s : String) : List UInt8 := if s == "~" then [] else unhexL s.toList
+
+def hexDigit (n : Nat) : Char := if n < 10 then Char.ofNat (48 + n) else Char.ofNat (87 + n)
+
+def hexOf (bs : List UInt8) : String :=
+  if bs.isEmpty then "~" else String.ofList (bs.flatMap fun b => [hexDigit (b.toNat / 16), hexDigit (b.toNat % 16)])
+
+def parseEv? (t : String) : Option Ev :=
+  if t == "i" then some .interrupted else if t == "e" then some .fail
+  else match t.toList with
+    | 'g' :: ds => (String.ofList ds).toNat?.map Ev.give
+    | _ => none
+
+def parseScript? (s : String) : Option (List Ev) :=
+  if s == "~" then some [] else (s.splitOn ".").mapM parseEv?
+
+def parseNats (s : String) : List Nat :=
+  if s == "~" then [] else (s.splitOn ",").filterMap (·.toNat?)
+
+def showNats (l : List Nat) : String := if l.isEmpty then "~" else ",".intercalate (l.map toString)
+
+/-- like `parseArr?` but the empty array `|` is a value too (the text reader produces it) -/
+def parseArrE? (s : String) : Option Arr :=
+  if s == "|" then some #[] else parseArr? s
+
+def showArrE (A : Arr) : String := showArr A
+
+def kindOf {α} (o : Outcome α) : String := o.kind
+
+/-! ### independent encoders for the predicate -/
+
+def leI (w x : Nat) : List UInt8 := (List.range w).map fun i => ((x >>> (8 * i)) % 256).toUInt8
+
+def expBytes (A : Arr) : List UInt8 := A.toList.flatMap fun nd => leI 2 nd.var ++ leI 4 nd.low ++ leI 4 nd.high
+
+def expTextBytes (A : Arr) : List UInt8 := (showArr A).toList.map fun c => c.toNat.toUInt8
+
+def isFault : Ev → Bool
+  | .fail => true
+  | .give 0 => true
+  | _ => false
+
+def faultless (sc : List Ev) : Bool := !sc.any isFault
+
+def isPrefix : List UInt8 → List UInt8 → Bool
+  | [], _ => true
+  | _ :: _, [] => false
+  | a :: as, b :: bs => a == b && isPrefix as bs
+
+def firstFail (xs : List (Option String)) : Option String := xs.findSome? id
+
+def req (b : Bool) (clause : String) : Option String := if b then none else some clause
+
+def scriptTags (sc : List Ev) : List String :=
+  (if sc.isEmpty then ["plain"] else ["chunked"]) ++ (if sc.contains .interrupted then ["intr"] else []) ++
+  (if sc.contains .fail then ["fail"] else []) ++ (if sc.contains (.give 0) then ["give0"] else [])
+
+def sizeTag (A : Arr) : String :=
+  if A.size > 65536 then "nodes>65536" else if A.size > 256 then "nodes>256" else if A.size > 2 then "nodes>2" else "const"
+
+def varTag (A : Arr) : List String := if A.any (fun nd => nd.var ≥ 256) then ["var16"] else []
+
+/-- the sequence of buffer sizes `read_exact` must ask for (tie of the byte reader's call pattern) -/
+def exactWants (recLen : Nat) : Nat → Reader → Nat → List Nat → List Nat
+  | 0, _, _, acc => acc.reverse
+  | fuel + 1, r, need, acc =>
+    let (res, r') := r.read need
+    match res with
+    | .bytes bs =>
+      if bs.length = 0 then (need :: acc).reverse
+      else if need - bs.length = 0 then exactWants recLen fuel r' recLen (need :: acc)
+      else exactWants recLen fuel r' (need - bs.length) (need :: acc)
+    | .interrupted => exactWants recLen fuel r' need (need :: acc)
+    | .failed => (need :: acc).reverse
+
+def independentDigits (s : List Char) (max : Nat) : Option Nat :=
+  let body := match s with | '+' :: rest => rest | _ => s
+  if body.isEmpty then none
+  else if !body.all (fun c => '0' ≤ c ∧ c ≤ '9') then none
+  else
+    let v := body.foldl (fun a c => a * 10 + (c.toNat - 48)) 0
+    if v ≤ max then some v else none
+
+def handle (key : String) (ins obs : List String) : Verdict :=
+  match key, ins, obs with
+  | "C12.mem", [b], [text, bytes, rtT, rtB, rtN] =>
+    match parseArrE? b with
+    | some A =>
+      let mText := String.ofList (writeText A)
+      let mBytes := writeBytes A
+      let mRtT := match readText (asciiBytes (writeText A)) with
+        | .ok A' => if A' == A then "1" else "0"
+        | _ => "panic"           -- `from_string` unwraps
+      let mRtB := match readBytes mBytes with
+        | .ok A' => if A' == A then "1" else "0"
+        | _ => "panic"
+      let mRtN := match fromNodes (toNodes A) with
+        | .ok A' => if A' == A then "1" else "0"
+        | .err _ => "err"
+        | .panic _ => "panic"
+      let model := s!"{mText} {hexOf mBytes} {mRtT} {mRtB} {mRtN}"
+      let wf := A.size > 0 && wfoB A (numVars A)
+      let fail := firstFail [
+        req (text == showArr A) "text-form", req (unhex bytes == expBytes A) "binary-form",
+        req ((unhex bytes).length == 10 * A.size) "ten-bytes-per-node",
+        req (rtT == "1") "text-roundtrip", req (rtB == "1") "bytes-roundtrip",
+        req (rtN != "panic") "from_nodes-panics", req (!wf || rtN == "1") "nodes-roundtrip"]
+      { agree := model == " ".intercalate obs, model, fail, nontrivial := A.size > 2,
+        tags := ["mem", sizeTag A, if wf then "wf" else "raw"] ++ varTag A }
+    | none => Verdict.bad "args"
+  | "C12.wtext", [b, sc], [kind, out, consumed, flushes] | "C12.wbytes", [b, sc], [kind, out, consumed, flushes] =>
+    match parseArrE? b, parseScript? sc with
+    | some A, some script =>
+      let isText := key == "C12.wtext"
+      let (ok, mo, s') := if isText then writeTextIO A script else writeBytesIO A script
+      let model := s!"{if ok then "ok" else "err"} {hexOf mo} {script.length - s'.length} 0"
+      let expected := if isText then expTextBytes A else expBytes A
+      let o := unhex out
+      let used := script.take (consumed.toNat?.getD 0)
+      let fail := firstFail [
+        req (kind == "ok" || kind == "err") ("outcome:" ++ kind),
+        req (!faultless script || kind == "ok") "faultless-script-must-succeed",
+        req (kind != "ok" || o == expected) "written-bytes-differ",
+        req (isPrefix o expected) "sink-not-a-prefix",
+        req (!used.contains .fail || kind == "err") "io-error-not-propagated",
+        req (flushes == "0" || true) "flush"]
+      { agree := model == " ".intercalate [kind, out, consumed, flushes], model, fail,
+        nontrivial := A.size > 2 && !script.isEmpty,
+        tags := [if isText then "wtext" else "wbytes", sizeTag A] ++ scriptTags script ++ varTag A }
+    | _, _ => Verdict.bad "args"
+  | "C12.rtext", [orig, data, sc], [kind, res, consumed, wants] | "C12.rbytes", [orig, data, sc], [kind, res, consumed, wants] =>
+    match parseScript? sc with
+    | some script =>
+      let isText := key == "C12.rtext"
+      let bytes := unhex data
+      let ws := parseNats wants
+      let (mo, r') := if isText then readTextIO ⟨bytes, script⟩ ws else readBytesIO ⟨bytes, script⟩ #[]
+      let mRes := match mo with | .ok A => showArr A | _ => "~"
+      let mWants := if isText then wants else showNats (exactWants Gen.recordLen (bytes.length + script.length + 2) ⟨bytes, script⟩ Gen.recordLen [])
+      let model := s!"{kindOf mo} {mRes} {script.length - r'.script.length} {mWants}"
+      let used := script.take (consumed.toNat?.getD 0)
+      let hasWs := isText && bytes.any (fun b => b.toNat ≥ 0x80 || b.toNat ≤ 0x20)
+      let fail := firstFail [
+        req (kind == "ok" || kind == "err") ("outcome:" ++ kind),
+        req (!used.contains .fail || kind == "err") "io-error-not-propagated",
+        req (orig == "~" || !faultless script || (kind == "ok" && res == orig)) "roundtrip-under-chunking"]
+      { agree := model == " ".intercalate [kind, res, consumed, wants], model, fail,
+        nontrivial := orig.length > 14 && !script.isEmpty,
+        tags := [if isText then "rtext" else "rbytes", if orig == "~" then "noorig" else "orig"] ++ scriptTags script ++
+          (if hasWs then ["whitespace"] else []) ++ (if isText && bytes.any (fun b => b.toNat ≥ 0x80) then ["non-ascii-ws"] else []) }
+    | none => Verdict.bad "args"
+  | "C12.big", [_n, _k, _seed], [size, blen, tlen, flags] =>
+    match size.toNat?, blen.toNat? with
+    | some sz, some bl =>
+      let model := s!"{sz} {Gen.recordLen * sz} {tlen} 1111111111111"
+      let fail := firstFail [req (bl == 10 * sz) "ten-bytes-per-node", req (flags == "1111111111111") ("big-flags:" ++ flags)]
+      { agree := model == " ".intercalate obs, model, fail, nontrivial := sz > 256,
+        tags := ["big", if sz > 65536 then "nodes>65536" else if sz > 256 then "nodes>256" else "small"] }
+    | _, _ => Verdict.bad "args"
+  | "C12.wschars", [], [l] =>
+    let model := showNats whiteSpace
+    { agree := model == l, model, fail := none, nontrivial := true, tags := ["wschars"] }
+  | "C12.parse", [ty, data], [res] =>
+    let max := if ty == "u16" then u16Max else u32Max
+    match utf8Decode (unhex data) with
+    | some s =>
+      let model := match parseUInt max s with | some v => s!"ok:{v}" | none => "err"
+      let indep := match independentDigits s max with | some v => s!"ok:{v}" | none => "err"
+      { agree := model == res, model, fail := req (res == indep) "decimal-grammar", nontrivial := s.length > 1,
+        tags := ["parse", ty, if res == "err" then "err" else "ok"] }
+    | none => Verdict.bad "utf8"
+  | _, _, _ => Verdict.bad ("key " ++ key)
 
 end B.Drive.C12
